@@ -87,6 +87,12 @@ impl<'a> ProjectionStrategy for AggregationProjection<'a> {
             .collect::<Vec<String>>();
         set.add_many(filtered);
 
+        // FOR <context_id>: zones mix contexts, so the rows of a candidate zone have to be
+        // filtered by context_id, which needs the column.
+        if self.plan.context_id().is_some() {
+            set.add("context_id");
+        }
+
         // group by
         if let Some(group_by) = &self.agg.group_by {
             for g in group_by {
